@@ -105,7 +105,7 @@ theorem fin_agree (ok : Decoder → Prop) (H : SplitOK ok) (app : App) (n : Nat)
         (by simp [f2]) (by simp [f1]) (by simp [f5, hccr]) rfl
       simp only [List.nil_append]
       rw [ho]
-      refine ⟨rfl, rfl, ?_, fun _ => ⟨?_, rfl⟩⟩
+      refine ⟨rfl, rfl, ?_, fun _ => ⟨Or.inl ?_, rfl⟩⟩
       · simp [pre, core_append, hco]
       · simp [pre, List.append_assoc]
   | true =>
@@ -174,28 +174,36 @@ theorem second_raw_agree (ok : Decoder → Prop) (H : SplitOK ok) (app : App)
   cases hres : decFeed d' b with
   | bad =>
     rw [hres] at hR
+    have hR := DRes.rel_bad hR
     have s1 := step_bad app { c with decoder := d' } b hm hh hres
-    have s2 := step_bad app c (B ++ b) hm hh hR.symm
+    have s2 := step_bad app c (B ++ b) hm hh hR
     rw [D_go_nil app _ b hb (by rw [s1]; simp [hlr]) (by rw [s1]; exact hq),
         D_go_nil app c _ hBb (by rw [s2]; simp [hlr]) (by rw [s2]; exact hq), s1, s2]
     exact agree_stopped _ _ rfl rfl rfl (fun h => by have := h.1; simp at this)
   | exc e =>
     rw [hres] at hR
+    have hR := DRes.rel_exc hR
     have s1 := step_exc app { c with decoder := d' } b e hm hh hres
-    have s2 := step_exc app c (B ++ b) e hm hh hR.symm
+    have s2 := step_exc app c (B ++ b) e hm hh hR
     rw [D_stop app _ b hb (by rw [s1]), D_stop app c _ hBb (by rw [s2]), s1, s2]
     exact agree_stopped _ _ rfl rfl rfl (fun h => by have := h.2; simp at this)
   | more d2 =>
     rw [hres] at hR
+    obtain ⟨d3, hR, hrel⟩ := DRes.rel_more hR
     have s1 := step_more app { c with decoder := d' } b d2 hm hh hres
-    have s2 := step_more app c (B ++ b) d2 hm hh hR.symm
+    have s2 := step_more app c (B ++ b) d3 hm hh hR
     rw [D_go_nil app _ b hb (by rw [s1]; simp [hlr]) (by rw [s1]; exact hq),
         D_go_nil app c _ hBb (by rw [s2]; simp [hlr]) (by rw [s2]; exact hq), s1, s2]
-    exact Agree.refl _
+    refine ⟨rfl, rfl, rfl, fun _ => ⟨?_, rfl⟩⟩
+    rcases hrel.symm with he | ⟨x, y, h1, h2, h3⟩
+    · subst he; exact chanRel.refl _
+    · subst h1 h2
+      exact Or.inr ⟨hm, hh, x, y, rfl, rfl, h3⟩
   | fin body e =>
     rw [hres] at hR
+    have hR := DRes.rel_fin hR
     have s1 := step_fin app { c with decoder := d' } b body e hm hh hres
-    have s2 := step_fin app c (B ++ b) body e hm hh hR.symm
+    have s2 := step_fin app c (B ++ b) body e hm hh hR
     have hprog := H.prog _ B b _ body e hi.i6 h1 hres
     have hdb := hi.i2 hh
     -- both steps are the same step
@@ -328,11 +336,11 @@ theorem D_append (ok : Decoder → Prop) (H : SplitOK ok) (app : App) :
           by_cases hb : b = []
           · subst hb
             rw [D_nil]
-            refine ⟨rfl, rfl, ?_, fun _ => ⟨by simp [pre], by simp [pre]⟩⟩
+            refine ⟨rfl, rfl, ?_, fun _ => ⟨Or.inl (by simp [pre]), by simp [pre]⟩⟩
             simp [pre, hc1, hc2]
           · obtain ⟨o3, ho3, hc3⟩ := D_handling app { c with dataBuffer := c.dataBuffer ++ B } b hb hm' hh hlr hq
             rw [ho3]
-            refine ⟨rfl, rfl, ?_, fun _ => ⟨by simp [pre, List.append_assoc], by simp [pre]⟩⟩
+            refine ⟨rfl, rfl, ?_, fun _ => ⟨Or.inl (by simp [pre, List.append_assoc]), by simp [pre]⟩⟩
             simp [pre, core_append, hc1, hc2, hc3]
         · have hh' : c.handling = false := by simpa using hh
           cases hres : decFeed c.decoder B with
@@ -368,5 +376,63 @@ theorem D_append (ok : Decoder → Prop) (H : SplitOK ok) (app : App) :
           | fin body extra =>
             exact fin_agree ok H app n ih c B b body extra hn hi ⟨hlc, hlr⟩ hB hm' hh' hres
               (H.fin _ B b body extra hi.i6 hres)
+
+/-- **related channels run alike**: in raw mode the whole delivery goes to the decoder, whose
+    verdicts are related (`SplitOK.cong`); a completed body, a rejection or an exception leave no
+    trace of the decoder -/
+theorem D_rel (ok : Decoder → Prop) (H : SplitOK ok) (app : App) (c1 c2 : Chan) (Y : Bytes)
+    (h : chanRel c1 c2) (hi : Inv ok c2) (hl : live c2) : Agree (D app c1 Y) (D app c2 Y) := by
+  rcases h with h | ⟨hm, hh, a, b, h1, h2, h3⟩
+  · subst h; exact Agree.refl _
+  · by_cases hY : Y = []
+    · subst hY
+      rw [D_nil, D_nil]
+      exact ⟨by rw [h2], by rw [h2], rfl, fun _ => ⟨Or.inr ⟨hm, hh, a, b, h1, h2, h3⟩, rfl⟩⟩
+    · obtain ⟨hlc, hlr⟩ := hl
+      have hq := hi.i5
+      have hm2 : c2.lineMode = false := by rw [h2]; exact hm
+      have hh2 : c2.handling = false := by rw [h2]; exact hh
+      have hd2 : c2.decoder = .chunked b := by rw [h2]
+      have hq1 : c1.requeue = [] := by rw [h2] at hq; exact hq
+      have hlr1 : c1.raised = none := by rw [h2] at hlr; exact hlr
+      have hrel : DRes.rel (decFeed c1.decoder Y) (decFeed c2.decoder Y) := by
+        rw [h1, hd2]
+        exact H.cong _ _ Y (by rw [← hd2]; exact hi.i6) (Or.inr ⟨a, b, rfl, rfl, h3⟩)
+      cases hres : decFeed c1.decoder Y with
+      | bad =>
+        rw [hres] at hrel
+        have s1 := step_bad app c1 Y hm hh hres
+        have s2 := step_bad app c2 Y hm2 hh2 (DRes.rel_bad hrel)
+        rw [D_go_nil app c1 Y hY (by rw [s1]; simp [hlr1]) (by rw [s1]; exact hq1),
+            D_go_nil app c2 Y hY (by rw [s2]; simp [hlr]) (by rw [s2]; exact hq), s1, s2]
+        exact agree_stopped _ _ rfl (by simp [hlr, hlr1]) rfl (fun h => by have := h.1; simp at this)
+      | exc e =>
+        rw [hres] at hrel
+        have s1 := step_exc app c1 Y e hm hh hres
+        have s2 := step_exc app c2 Y e hm2 hh2 (DRes.rel_exc hrel)
+        rw [D_stop app c1 Y hY (by rw [s1]), D_stop app c2 Y hY (by rw [s2]), s1, s2]
+        exact agree_stopped _ _ (by rw [h2]) rfl rfl (fun h => by have := h.2; simp at this)
+      | more d1 =>
+        rw [hres] at hrel
+        obtain ⟨d3, hR, hr⟩ := DRes.rel_more hrel
+        have s1 := step_more app c1 Y d1 hm hh hres
+        have s2 := step_more app c2 Y d3 hm2 hh2 hR
+        rw [D_go_nil app c1 Y hY (by rw [s1]; simp [hlr1]) (by rw [s1]; exact hq1),
+            D_go_nil app c2 Y hY (by rw [s2]; simp [hlr]) (by rw [s2]; exact hq), s1, s2]
+        refine ⟨by rw [h2], by rw [h2], rfl, fun _ => ⟨?_, rfl⟩⟩
+        rcases hr with he | ⟨x, y, g1, g2, g3⟩
+        · subst he; rw [h2]; exact chanRel.refl _
+        · subst g1 g2
+          rw [h2]
+          exact Or.inr ⟨hm, hh, x, y, rfl, rfl, g3⟩
+      | fin body e =>
+        rw [hres] at hrel
+        have s1 := step_fin app c1 Y body e hm hh hres
+        have s2 := step_fin app c2 Y body e hm2 hh2 (DRes.rel_fin hrel)
+        have hs : stepLoop app c1 Y = stepLoop app c2 Y := by
+          rw [s1, s2, h2]
+        have hE : ¬ (Y.isEmpty = true) := by simpa using hY
+        rw [D_eq app c1 Y, D_eq app c2 Y, if_neg hE, if_neg hE, hs]
+        exact Agree.refl _
 
 end TwistedProps.C18
